@@ -100,7 +100,13 @@ def pool : List Rule := [
   ⟨"k-def", k (pv "a") (pv "b"), add (add (mul (pv "a") (pv "b")) (pv "a")) (mul (num 2) (pv "b")), [], []⟩,
   ⟨"h-def", h (pv "a"), add (mul (num 3) (pv "a")) (num 2), [], []⟩,
   ⟨"sum2-factor", sum "o" (sum "i" (mul (pv "c") (pv "a"))), sum "i" (mul (pv "c") (sum "o" (pv "a"))), [("o", "c")], []⟩,
-  ⟨"sum2-factor-b", sum "i" (sum "o" (mul (pv "c") (pv "a"))), sum "o" (mul (pv "c") (sum "i" (pv "a"))), [("i", "c")], []⟩
+  ⟨"sum2-factor-b", sum "i" (sum "o" (mul (pv "c") (pv "a"))), sum "o" (mul (pv "c") (sum "i" (pv "a"))), [("i", "c")], []⟩,
+  -- moving a factor under a binder: hygiene is the matcher's job (implicit), no explicit side condition;
+  -- the twins spell the binder like the library prints its own fresh slots (`$f2`, `$f3`, `$f4`)
+  ⟨"sum-infactor", mul (pv "c") (sum "x" (pv "a")), sum "x" (mul (pv "c") (pv "a")), [], [("x", "c")]⟩,
+  ⟨"sum-infactor-f2", mul (pv "c") (sum "f2" (pv "a")), sum "f2" (mul (pv "c") (pv "a")), [], [("f2", "c")]⟩,
+  ⟨"sum-infactor-f3", mul (pv "c") (sum "f3" (pv "a")), sum "f3" (mul (pv "c") (pv "a")), [], [("f3", "c")]⟩,
+  ⟨"sum-infactor-f4", mul (pv "c") (sum "f4" (pv "a")), sum "f4" (mul (pv "c") (pv "a")), [], [("f4", "c")]⟩
 ]
 
 open P in
